@@ -5,6 +5,7 @@ import copy
 
 import common as C
 import re_probes as RP
+import fault_probes as FP
 import engine_common as E
 import engine_extract
 from engine_common import M, seq
@@ -413,6 +414,7 @@ class Gen:
 
 def run(ctx, model=True):
     res = E.run_property(ctx, "C12", oracle, gen=Gen(), quick=160, thorough=4000, model=model)
+    FP.run_probes(ctx, res, [FP.failed_status_delivered], ["odd-status"], 10, 100)
     RP.add_to(res, ["reused-message", "locate", "replayed-group"])
     return res
 
@@ -425,4 +427,6 @@ def replay(ctx, data):
     r = RP.replay(data)
     if r is not None:
         return r
+    if FP.is_probe(data):
+        return FP.replay_probe(ctx, data, [FP.failed_status_delivered])
     return E.replay_property(ctx, data, oracle)
